@@ -31,6 +31,12 @@ op("bitwise_not", "xsimd::bitwise_not(a)", "B", ALL_TYPES)
 for _n in ("bitwise_lshift", "bitwise_rshift", "rotl", "rotr"):
     op(_n + "_s", "xsimd::%s(a, n)" % _n, "BI", INT_TYPES)
     op(_n + "_b", "xsimd::%s(a, b)" % _n, "BB", INT_TYPES)
+# C02 / C08
+for _n in ("sqrt", "bitofsign", "sign", "signnz", "ceil", "floor", "trunc", "round", "nearbyint", "rint"):
+    op(_n, "xsimd::%s(a)" % _n, "B", FLOAT_TYPES)
+op("copysign", "xsimd::copysign(a, b)", "BB", FLOAT_TYPES)
+for _n in ("isnan", "isinf", "isfinite", "is_flint", "is_even", "is_odd"):
+    op(_n, "xsimd::%s(a)" % _n, "B", FLOAT_TYPES, "M")
 # C03
 for _n in ("eq", "neq", "lt", "le", "gt", "ge"):
     op(_n, "xsimd::%s(a, b)" % _n, "BB", ALL_TYPES, "M")
